@@ -126,5 +126,5 @@ func (n *Names) Program(p *program.Program) string {
 		nb = append(nb, fmt.Sprintf("(%d, [%s])", k, strings.Join(xs, "; ")))
 	}
 	return "{| p_code := " + Code(p.Instructions) + "; p_res := [" + strings.Join(rs, "; ") + "]; p_sources := [" +
-		strings.Join(ss, "; ") + "]; p_needed := [" + strings.Join(nb, "; ") + "] |}"
+		strings.Join(ss, "; ") + "]; p_needed := [" + strings.Join(nb, "; ") + "]; p_vars := [] |}"
 }
